@@ -193,9 +193,12 @@ class SimpleEventSequence(EventSequence):
       return self._events[key]
     elif isinstance(key, slice):
       events = self._events.__getitem__(key)
+      # Resolve negative and out-of-range bounds to the index of the first
+      # element of the slice, so that the offset is never negative.
+      start = key.indices(len(self._events))[0]
       return type(self)(pad_event=self._pad_event,
                         events=events,
-                        start_step=self.start_step + (key.start or 0),
+                        start_step=self.start_step + start,
                         steps_per_bar=self.steps_per_bar,
                         steps_per_quarter=self.steps_per_quarter)
 
